@@ -1654,6 +1654,8 @@ package formula
 //@   panics never
 //@   decreases refOf(expr)
 //@   ensures result1 != nil ==> len(result0) == 0
+//@   ensures[C10] (result1 == nil) == named(expr)
+//@   ensures[C10] result1 == nil ==> result0 == names(expr)
 
 // Argument conversion (C11). assignable/convOK/paramType are the reflect notions of the
 // assumed library contracts; conversion results are always assignable to the target type,
@@ -1798,3 +1800,105 @@ package formula
 //@           invariant evald(r, expr, fun, old(world)) && (r.this == old(r.this) || (old(r.this) == nil && fresh(r.this)))
 //@           invariant sigok(expr, fun, funType, hasVariadic, paramCount, hasContextParam, minArgsCount) && (hasVariadic ? len(callArgs) >= paramCount - 1 : len(callArgs) == paramCount)
 //@           invariant[C03,C11] forall j int :: 0 <= j && j < len(callArgs) ==> rvValid(callArgs[j]) && !rvRO(callArgs[j]) && assignable(rvType(callArgs[j]), paramType(typeOf(fun), j))
+
+// ---------------------------------------------------------------------------
+// Referenced-field analysis (C10)
+// ---------------------------------------------------------------------------
+
+// names(v): the segments of a name or dotted path; refs(v): the names and dotted paths a
+// formula reads as values, in source order, written from the property statement: an
+// identifier contributes its name, a selector chain over a name its dotted path, a call its
+// arguments only, every other node what its children contribute. refsOK: the analysis
+// refuses member access on anything but a name or path.
+//@ spec rec names(v Expression) []string := is(v, *Identifier) ? unit(as(v, *Identifier).Value) : names(as(v, *SelectorExpression).Expression) ++ unit(as(v, *SelectorExpression).Name.Value)
+//@ spec rec refsList(l *NodeList[Expression], n int) []string := n <= 0 ? empty([]string) : refsList(l, n-1) ++ refs(l.nodes[n-1])
+//@ spec rec refs(v Expression) []string := is(v, *Identifier) ? unit(as(v, *Identifier).Value) : is(v, *SelectorExpression) ? unit(joinS(names(v), ".")) : is(v, *PrefixUnaryExpression) ? refs(as(v, *PrefixUnaryExpression).Operand) : is(v, *BinaryExpression) ? refs(as(v, *BinaryExpression).Left) ++ refs(as(v, *BinaryExpression).Right) : is(v, *ParenthesizedExpression) ? refs(as(v, *ParenthesizedExpression).Expression) : is(v, *TypeOfExpression) ? refs(as(v, *TypeOfExpression).Expression) : is(v, *ConditionalExpression) ? refs(as(v, *ConditionalExpression).Condition) ++ refs(as(v, *ConditionalExpression).WhenTrue) ++ refs(as(v, *ConditionalExpression).WhenFalse) : is(v, *CallExpression) ? refsList(as(v, *CallExpression).Arguments, llen(as(v, *CallExpression).Arguments)) : is(v, *ArrayLiteralExpression) ? refsList(as(v, *ArrayLiteralExpression).Elements, llen(as(v, *ArrayLiteralExpression).Elements)) : empty([]string)
+//@ spec llen(l *NodeList[Expression]) int := l == nil ? 0 : len(l.nodes)
+//@ spec refsOKList(l *NodeList[Expression], n int) bool := forall j int :: 0 <= j && j < n ==> refsOK(l.nodes[j])
+//@ spec rec refsOK(v Expression) bool := is(v, *Identifier) ? true : is(v, *SelectorExpression) ? named(v) : is(v, *PrefixUnaryExpression) ? refsOK(as(v, *PrefixUnaryExpression).Operand) : is(v, *BinaryExpression) ? (refsOK(as(v, *BinaryExpression).Left) && refsOK(as(v, *BinaryExpression).Right)) : is(v, *ParenthesizedExpression) ? refsOK(as(v, *ParenthesizedExpression).Expression) : is(v, *TypeOfExpression) ? refsOK(as(v, *TypeOfExpression).Expression) : is(v, *ConditionalExpression) ? (refsOK(as(v, *ConditionalExpression).Condition) && refsOK(as(v, *ConditionalExpression).WhenTrue) && refsOK(as(v, *ConditionalExpression).WhenFalse)) : is(v, *CallExpression) ? refsOKList(as(v, *CallExpression).Arguments, llen(as(v, *CallExpression).Arguments)) : is(v, *ArrayLiteralExpression) ? refsOKList(as(v, *ArrayLiteralExpression).Elements, llen(as(v, *ArrayLiteralExpression).Elements)) : is(v, *LiteralExpression)
+
+//@ frame collector(r *referenceResovle) := r.fields
+
+//@ func (*referenceResovle).resolve
+//@   tags [C10,C08]
+//@   requires r != nil && treeok(node)
+//@   assigns collector(r)
+//@   panics never
+//@   decreases refOf(node), 1
+//@   ensures[C10] (result == nil) == refsOK(node)
+//@   ensures[C10] result == nil ==> r.fields == old(r.fields) ++ refs(node)
+
+//@ func (*referenceResovle).resolveIdentifier
+//@   tags [C10,C08]
+//@   requires r != nil && v != nil
+//@   assigns collector(r)
+//@   panics never
+//@   ensures[C10] result == nil && r.fields == old(r.fields) ++ unit(v.Value)
+
+//@ func (*referenceResovle).resolveArrayLiteralExpression
+//@   tags [C10,C08]
+//@   requires r != nil && v != nil && treeok(box(v, *ArrayLiteralExpression))
+//@   assigns collector(r)
+//@   panics never
+//@   decreases v, 0
+//@   ensures[C10] (result == nil) == refsOKList(v.Elements, llen(v.Elements))
+//@   ensures[C10] result == nil ==> r.fields == old(r.fields) ++ refsList(v.Elements, llen(v.Elements))
+//@   loop 1: invariant v.Elements != nil && 0 <= i && i <= len(v.Elements.nodes) && refsOKList(v.Elements, i) && r.fields == old(r.fields) ++ refsList(v.Elements, i)
+//@           decreases len(v.Elements.nodes) - i
+
+// a call contributes its arguments only (the callee position is not a read of a value)
+//@ func (*referenceResovle).resolveCallExpression
+//@   tags [C10,C08]
+//@   requires r != nil && v != nil && treeok(box(v, *CallExpression))
+//@   assigns collector(r)
+//@   panics never
+//@   decreases v, 0
+//@   ensures[C10] (result == nil) == refsOKList(v.Arguments, llen(v.Arguments))
+//@   ensures[C10] result == nil ==> r.fields == old(r.fields) ++ refsList(v.Arguments, llen(v.Arguments))
+//@   loop 1: invariant v.Arguments != nil && 0 <= i && i <= len(v.Arguments.nodes) && refsOKList(v.Arguments, i) && r.fields == old(r.fields) ++ refsList(v.Arguments, i)
+//@           decreases len(v.Arguments.nodes) - i
+
+// De-duplication: the result has no duplicates and the same members as the argument.
+//@ spec memb(a []string, k string) bool := exists i int :: 0 <= i && i < len(a) && a[i] == k
+//@ spec nodup(a []string) bool := forall i int, j int :: 0 <= i && i < j && j < len(a) ==> a[i] != a[j]
+
+//@ func stringsUniq
+//@   tags [C10]
+//@   panics never
+//@   ensures[C10] nodup(result)
+//@   ensures[C10] forall k string :: memb(result, k) == memb(arr, k)
+//@   loop 1: invariant m != nil && fresh(m) && rangeindex >= -1 && rangeindex < len(arr)
+//@           invariant forall k string :: mapHas(m, k) == (exists i int :: 0 <= i && i <= rangeindex && arr[i] == k)
+//@           decreases len(arr) - rangeindex
+//@   loop 2: invariant m != nil && fresh(m) && (forall k string :: mapHas(m, k) == memb(arr, k))
+//@           invariant forall k string :: visited@L2[k] == memb(result, k)
+//@           invariant forall k string :: visited@L2[k] ==> mapHas(m, k)
+//@           invariant nodup(result)
+
+// The reported fields: the distinct members of refs(formula); an error exactly when the
+// formula has member access on something that is not a name or path.
+//@ func ResolveReferenceFields
+//@   tags [C10,C08]
+//@   requires source != nil && treeok(source.Expression)
+//@   panics never
+//@   ensures[C10] (result1 == nil) == refsOK(source.Expression)
+//@   ensures result1 != nil ==> len(result0) == 0
+//@   ensures[C10] result1 == nil ==> nodup(result0)
+//@   ensures[C10] result1 == nil ==> (forall k string :: memb(result0, k) == memb(refs(source.Expression), k))
+
+// ... and the non-local variant: that set without the $-prefixed entries.
+//@ func ResolveReferenceFieldsNotLocal
+//@   tags [C10,C08]
+//@   requires source != nil && treeok(source.Expression)
+//@   panics never
+//@   ensures[C10] (result1 == nil) == refsOK(source.Expression)
+//@   ensures result1 != nil ==> len(result0) == 0
+//@   ensures[C10] result1 == nil ==> nodup(result0)
+//@   ensures[C10] result1 == nil ==> (forall a int :: 0 <= a && a < len(result0) ==> !hasPrefix(result0[a], "$") && memb(refs(source.Expression), result0[a]))
+//@   ensures[C10] result1 == nil ==> (forall k string :: memb(refs(source.Expression), k) && !hasPrefix(k, "$") ==> memb(result0, k))
+//@   loop 1: invariant rangeindex >= -1 && rangeindex < len(fields) && nodup(fields) && refsOK(source.Expression) && (forall k string :: memb(fields, k) == memb(refs(source.Expression), k))
+//@           invariant forall a int :: 0 <= a && a < len(result) ==> !hasPrefix(result[a], "$") && memb(fields, result[a])
+//@           invariant forall i int :: 0 <= i && i <= rangeindex && !hasPrefix(fields[i], "$") ==> memb(result, fields[i])
+//@           invariant forall a int, i int :: 0 <= a && a < len(result) && rangeindex < i && i < len(fields) ==> fields[i] != result[a]
+//@           invariant nodup(result)
+//@           decreases len(fields) - rangeindex
